@@ -131,26 +131,7 @@ def retry_wrapper():
 # ---- (c) one transaction per attempt ------------------------------------------------------------------------------------
 
 
-def with_model(enter, exit_):
-    """Python's with-statement protocol around two oracles: enter(eng, st, node) -> [(state, ('value', v) | ('raise', e))],
-    exit_(eng, st, exc_or_None) -> [(state, None | raised exception)] (the managers here return None from __aexit__, i.e.
-    they never swallow the exception)"""
-
-    def model(eng, st, node):
-        outs = []
-        for s1, (k, v) in enter(eng, st, node):
-            if k == 'raise':
-                outs.append((s1, ('raise', v)))
-                continue
-            if node.items[0].optional_vars is not None:
-                eng.assign(node.items[0].optional_vars, v, s1)
-            for s2, oc in eng.exec_block(node.body, s1):
-                exc = oc[1] if oc[0] == 'raise' else None
-                for s3, e3 in exit_(eng, s2, exc):
-                    outs.append((s3, ('raise', e3) if e3 is not None else oc))
-        return outs
-
-    return model
+with_model = pyvc.with_model
 
 
 def _tx_manager(read_only_expected=None):
@@ -277,6 +258,7 @@ def _counting(name, may_raise=True):
         def bad(s):
             s.env['n_' + name] = s.env['n_' + name] + 1
             s.env['last_exc'] = e
+            s.env['op_failed'] = True
 
         alts = [(name + '-ok', None, 'value', None, ok)]
         if may_raise:
@@ -307,9 +289,10 @@ def aexit_1():
             '_release_connection': lambda eng, st, args, kw, node: rel(to_z3(args[0], 'U')),
             'self._task_manager.ensure_future': _ensure_future,
         },
-        ghost_init={'n_rollback': '0', 'n_commit': '0', 'n_release': '0', 'released': 'NOEXC', 'last_exc': 'NOEXC'},
+        ghost_init={'n_rollback': '0', 'n_commit': '0', 'n_release': '0', 'released': 'NOEXC', 'last_exc': 'NOEXC', 'op_failed': 'False'},
         consts={'NOEXC': z3.Const('no_exc', pyvc.U)},
         ensures=[
+            ('a-failed-commit-or-rollback-is-never-reported-as-success', 'not op_failed'),
             ('rolls-back-and-never-commits-when-the-body-raised', 'implies(old(self.conn) is not None and truthy(exc_type), n_rollback == 1 and n_commit == 0)'),
             ('commits-and-never-rolls-back-otherwise', 'implies(old(self.conn) is not None and not truthy(exc_type), n_commit == 1 and n_rollback == 0)'),
             ('nothing-without-a-connection', 'implies(old(self.conn) is None, n_commit == 0 and n_rollback == 0)'),
@@ -449,6 +432,27 @@ def scans(ctx):
     for name in DB_METHODS:
         fn = pyvc.find_function(tree, 'Database.' + name)
         ctx.add(core.decided('C27/Database.%s/decorated-by-the-retry-loop' % name, _decorators(fn) == ['retry_transient_mysql_errors'], repr(_decorators(fn)), kind='scan'))
+    # the retry loop may wrap only operations that open (and finish) their own transaction: re-running a single statement of
+    # an open transaction would replay it outside the rolled-back attempt
+    allowed = {'transaction.transformer.wrapper', 'Database.async_init', 'Database.check_call_procedure'} | {'Database.' + n for n in DB_METHODS}
+    decorated = []
+
+    def walk(node, prefix):
+        for ch in pyast.iter_child_nodes(node):
+            if isinstance(ch, (pyast.FunctionDef, pyast.AsyncFunctionDef, pyast.ClassDef)):
+                q = prefix + ch.name
+                if not isinstance(ch, pyast.ClassDef) and any('retry_transient_mysql_errors' in d for d in _decorators(ch)):
+                    decorated.append(q)
+                walk(ch, q + '.')
+            else:
+                walk(ch, prefix)
+
+    walk(tree, '')
+    uses = [n for n in pyast.walk(tree) if isinstance(n, pyast.Name) and n.id == 'retry_transient_mysql_errors']
+    ctx.add(core.decided('C27/retry-only-wraps-whole-transactions', set(decorated) <= allowed and len(uses) == len(decorated), 'decorated=%r other-uses=%d' % (sorted(set(decorated) - allowed), len(uses) - len(decorated)), kind='scan'))
+    ccp = pyvc.find_function(tree, 'Database.check_call_procedure')
+    inner = [pyast.unparse(n.func) for n in pyast.walk(ccp) if isinstance(n, pyast.Call)]
+    ctx.add(core.decided('C27/Database.check_call_procedure/only-runs-a-whole-retrying-transaction', [c for c in inner if c.startswith('self.')] == ['self.execute_and_fetchone'], repr(inner), kind='scan'))
     rw = pyvc.find_function(tree, 'retry_transient_mysql_errors')
     rets = [pyast.unparse(n.value) for n in rw.body if isinstance(n, pyast.Return) and n.value is not None]
     ctx.add(core.decided('C27/retry_transient_mysql_errors/returns-its-wrapper', rets == ['wrapper'], repr(rets), kind='scan'))
